@@ -56,6 +56,8 @@ pub struct Prog {
     #[serde(default)]
     pub trks: Vec<String>,
     #[serde(default)]
+    pub aws: Vec<String>,
+    #[serde(default)]
     pub tls: Vec<String>,
     #[serde(default)]
     pub lzs: Vec<String>,
@@ -219,6 +221,7 @@ pub struct Sh {
     ntfs: Vec<loom::sync::Notify>,
     txs: Vec<US<Option<loom::sync::mpsc::Sender<usize>>>>,
     rxs: Vec<US<Option<loom::sync::mpsc::Receiver<usize>>>>,
+    aws: Vec<loom::future::AtomicWaker>,
     handles: US<HashMap<String, Slot>>,
     trks: US<HashMap<String, loom::alloc::Track<()>>>,
     jh: US<HashMap<usize, loom::thread::JoinHandle<()>>>,
@@ -237,6 +240,12 @@ impl Drop for Sh {
         }
         for r in self.rxs.iter() {
             std::mem::forget(r.get().take());
+        }
+        if std::thread::panicking() {
+            // a registered waker must not be dropped outside an execution
+            for a in self.aws.drain(..) {
+                std::mem::forget(a);
+            }
         }
     }
 }
@@ -257,7 +266,7 @@ impl Sh {
         let mut idx = HashMap::new();
         for list in [
             &prog.atoms, &prog.cells, &prog.mtxs, &prog.rws, &prog.cvs, &prog.ntfs, &prog.chans,
-            &prog.arcs,
+            &prog.arcs, &prog.aws,
         ] {
             for (i, n) in list.iter().enumerate() {
                 idx.insert(n.clone(), i);
@@ -273,6 +282,7 @@ impl Sh {
         let rws = prog.rws.iter().map(|_| loom::sync::RwLock::new(())).collect();
         let cvs = prog.cvs.iter().map(|_| loom::sync::Condvar::new()).collect();
         let ntfs = prog.ntfs.iter().map(|_| loom::sync::Notify::new()).collect();
+        let aws = prog.aws.iter().map(|_| loom::future::AtomicWaker::new()).collect();
         let mut txs = vec![];
         let mut rxs = vec![];
         for _ in prog.chans.iter() {
@@ -317,11 +327,39 @@ impl Sh {
             ntfs,
             txs,
             rxs,
+            aws,
             handles: US::new(handles),
             trks: US::new(HashMap::new()),
             jh: US::new(HashMap::new()),
             th: US::new(HashMap::new()),
         }
+    }
+}
+
+/// The hand-written future of C20: register in an AtomicWaker and test a flag, in either order.
+struct Fut {
+    sh: SArc<Sh>,
+    aw: usize,
+    flag: usize,
+    ord: Ordering,
+    reg_first: bool,
+    polls: SArc<StdAtomicUsize>,
+}
+impl std::future::Future for Fut {
+    type Output = usize;
+    fn poll(self: std::pin::Pin<&mut Self>, cx: &mut std::task::Context<'_>) -> std::task::Poll<usize> {
+        self.polls.fetch_add(1, StdOrd::SeqCst);
+        if self.reg_first {
+            self.sh.aws[self.aw].register_by_ref(cx.waker());
+        }
+        let v = self.sh.atoms[self.flag].get().load(self.ord);
+        if v != 0 {
+            return std::task::Poll::Ready(v);
+        }
+        if !self.reg_first {
+            self.sh.aws[self.aw].register_by_ref(cx.waker());
+        }
+        std::task::Poll::Pending
     }
 }
 
@@ -593,6 +631,13 @@ fn run_thread(sh: SArc<Sh>, t: usize) {
             "tlwith" => res = Some(tl_bump(&ins.o) as i64),
             "tlnest" => res = Some(tl_nest(&ins.o, &ins.o2) as i64),
             "lzget" => res = Some(lz_get(&ins.o) as i64),
+            "blockon" => {
+                let polls = SArc::new(StdAtomicUsize::new(0));
+                let f = Fut { sh: sh.clone(), aw: oi(), flag: sh.idx[&ins.o2], ord: ord(&ins.ord), reg_first: ins.k == "reg-check", polls: polls.clone() };
+                let v = loom::future::block_on(f);
+                res = Some((v * 100 + polls.load(StdOrd::SeqCst)) as i64);
+            }
+            "wake" => sh.aws[oi()].wake(),
             "br" => {
                 if regs[ins.r - 1] != ins.v {
                     next = pc + 1 + ins.w as usize;
